@@ -2,7 +2,7 @@
 """Write seeded/INDEX.md from the per-seed meta.json / confirm.json / detect.json files."""
 import json, os, glob
 rows = []
-for d in sorted(glob.glob('/verif/seeded/*/')):
+for d in sorted(glob.glob('/verif/seeded/[!_]*/')):
     n = os.path.basename(d.rstrip('/'))
     def load(f):
         try:
